@@ -85,7 +85,12 @@ Record sstate := mkSt {
   s_bank : bank_state
 }.
 
-Definition TOKEN : text := [84; 79; 75; 69; 78].     (* "TOKEN", the bonded denom of the scenarios *)
+(* TOKEN is the model's NAME of the scenario's configured bonded denomination (StakingInfo::bonded_denom: "ustake",
+   "uatom", "TOKEN", ... — the harness reports balances / supply "in the bonded denom" under this name), exactly as
+   [acct a] names the account's bech32 string.  Its text is reserved (no real denomination starts with the code
+   point 0), so that the REAL default denomination "TOKEN" — which the code falls back to when a lookup misses the
+   configured StakingInfo — is a different, "other" denomination for the model whenever it is not the bonded one. *)
+Definition TOKEN : text := [0; 98; 111; 110; 100; 101; 100].
 Definition OTHER : text := [79; 84; 72; 69; 82].     (* "OTHER", the foreign denom *)
 Definition pool : text := [115; 116; 97; 107; 105; 110; 103; 95; 109; 111; 100; 117; 108; 101]. (* "staking_module", staking.rs:163 *)
 Definition acct (a : N) : text := [1; a].
@@ -361,6 +366,11 @@ Definition q_rewards (P : params) (now : N) (s : sstate) (d v : N) : sres (optio
           end
       end
   end.
+
+(* BankQuery::AllBalances without the bonded denom: every OTHER denomination the account holds *)
+Definition other_coins (b : bank_state) (a : text) : coins := filter (fun c : coin => negb (beqb (fst c) TOKEN)) (bank_all b a).
+(* BankQuery::Supply of another denomination (the reserved name of the bonded one never is another denomination) *)
+Definition other_supply (b : bank_state) (d : text) : N := if beqb d TOKEN then 0 else bank_supply b d.
 
 Definition q_balance (s : sstate) (a : N) : N := bank_balance (s_bank s) (acct a) TOKEN.
 Definition q_pool (s : sstate) : N := bank_balance (s_bank s) pool TOKEN.
